@@ -117,6 +117,34 @@ func ruleMaxIDFromEveryReader(p *Prog, r *Res, rule string) {
 							}
 							break
 						}
+						// … or the counter of `for i := 0; i < len(list); i++`, not left early
+						for i := len(parents) - 1; i >= 0 && !okKey; i-- {
+							fs, ok := parents[i].(*ast.ForStmt)
+							if !ok {
+								continue
+							}
+							lx := countedLoopOver(info, fs)
+							init, _ := fs.Init.(*ast.AssignStmt)
+							if lx == nil || init == nil || identObj(info, init.Lhs[0]) != ko || exprString(p.Fset, ast.Unparen(lx)) != exprString(p.Fset, ast.Unparen(ix.X)) {
+								continue
+							}
+							leaves := false
+							ast.Inspect(fs.Body, func(y ast.Node) bool {
+								switch b := y.(type) {
+								case *ast.FuncLit, *ast.ForStmt, *ast.RangeStmt, *ast.SwitchStmt, *ast.SelectStmt:
+									return false
+								case *ast.BranchStmt:
+									if b.Tok == token.BREAK {
+										leaves = true
+									}
+								case *ast.ReturnStmt:
+									leaves = true
+								}
+								return true
+							})
+							okKey = !leaves
+							break
+						}
 						if okKey {
 							r.Ok(rule, key, p.Pos(c), "the element of the current iteration of a loop over the whole list")
 							return true
